@@ -874,7 +874,7 @@ public:
 		if (n < (1 + ((nbits - 1) >> 2))) {
 			bt word = _block[(n * 4) / bitsInBlock];
 			int nibbleIndexInWord = int(n % (bitsInBlock >> 2ull));
-			bt mask = bt(0xF << (nibbleIndexInWord * 4));
+			bt mask = bt(bt(0xF) << (nibbleIndexInWord * 4)); // shift in the block type: an int shifted by 28 or more overflows
 			bt nibblebits = bt(mask & word);
 			return uint8_t(nibblebits >> (nibbleIndexInWord * 4));
 		}
